@@ -2161,10 +2161,13 @@ def c20(ctx):
     if not os.path.exists(vf):
         raise Broken("Abi.tla produced no verdict:\n" + res["out"][-2000:])
     v = json.load(open(vf))
-    for k, what in (("missing", "released (symbol, version) no longer exported"), ("alias", "compat alias no longer the same function"),
+    for k, what in (("missing", "released (symbol, version) no longer exported"),
                     ("layout", "struct crypt_data layout differs from the released header"), ("constants", "public constant changed value")):
         if v[k]:
             ctx.violation("C20", what, {k: v[k], "facts": {kk: facts.get(kk) for kk in ("layout", "constants")}})
+    # C20 asks that the compatibility symbols BEHAVE as their modern counterparts (judged below through every released
+    # binding); that they are the very same address is how the released library does it, not part of the property
+    alias_div = sorted(map(sorted, v["alias"])) if v["alias"] else []
     # behavioural half: an old binary's view -- every symbol bound at its released version node, hard-coded released layout
     cfgev = config_event(ctx, "so")
     behs = behaviours(ctx, 20 if quick else 150)
@@ -2183,6 +2186,12 @@ def c20(ctx):
         extra += ["checksalt %s" % hx(s), gs_cmd("gensalt_r", gen.PREFIX[m], 0, bytes(rng.randrange(256) for _ in range(20))),
                   gs_cmd("xgensalt_r", gen.PREFIX[m], 0, bytes(rng.randrange(256) for _ in range(20))),
                   gs_cmd("xgensalt", gen.PREFIX[m], 0, bytes(rng.randrange(256) for _ in range(20)))]
+    # the compat entry points of crypt_gensalt_rn with byte counts around the limits of narrower integer types
+    for pfx in ("$6$", "$y$", "$2b$", "$md5", "_", ""):
+        rb = bytes(rng.randrange(256) for _ in range(300))
+        for nrb in ("255", "256", "257", "300", "-1", "-256", "65552"):
+            for fn in ("gensalt_rn", "gensalt_r", "xgensalt_r"):
+                extra.append(gs_cmd(fn, pfx, 0, rb if not nrb.startswith("6") else rb * 220, nrb))
     allx, allg, allp = [], [], []
     for ver in (None, "GLIBC_2.2.5", "XCRYPT_2.0"):
         evs = ctx.run_xcv(script + extra, flavour="so", env=({"XCV_SYMVER": ver} if ver else {}))
@@ -2197,7 +2206,8 @@ def c20(ctx):
     cov = mc_coverage(ctx, 2, 2, [v1], allx, {"exported_pairs": v["exported"], "released_pairs": v["released"],
                                             "version_nodes_bound": ["default", "GLIBC_2.2.5", "XCRYPT_2.0"],
                                             "des_api_calls": sum(x["cnt"]["api"] for x in vp), "gensalt_calls": sum(x["cnt"]["calls"] for x in vg),
-                                            "predicates": ["Released subset-of Exported", "AliasClasses share an address", "Layout", "Constants",
+                                            "compat_symbols_not_sharing_their_counterparts_address (divergence, behaviour is judged)": alias_div,
+                                            "predicates": ["Released subset-of Exported", "Layout", "Constants",
                                                            "same results through every released version node (learned function)"]})
     return "model_checking", cov, ["Abi.tla's constants were extracted once from the released <crypt.h> and libcrypt.so.1 (4.4.33)",
                                    "the private build uses the repository's generated version script (plus _crypt_* exports), not libtool"]
